@@ -363,17 +363,33 @@ def run(ctx):
     # ---- data-driven classifiers ----------------------------------------
     nd = 60 if ctx.quick() else 600
     kinds = ['small', 'wide', 'frac', 'nonf32', 'rand']
-    for i in range(nd):
+    ntie = 80 if ctx.quick() else 1200
+    for i in range(nd + ntie):
         rng = ctx.rng
-        fn = ['quantile', 'equal_interval', 'natural_breaks'][i % 3]
-        dtype = ['float64', 'float32', 'int32', 'float64', 'int64'][(i // 3) % 5]
-        kind = kinds[(i // 15) % len(kinds)] if fn != 'natural_breaks' else ['small', 'wide', 'frac', 'nonf32'][(i // 3) % 4]
-        if fn == 'natural_breaks':
-            rows, cols = rng.randint(1, 3), rng.randint(2, 4)
+        if i >= nd:
+            # tie-heavy natural_breaks stream: few distinct values with skewed multiplicities (the optimum depends on them)
+            fn = 'natural_breaks'
+            dtype = ['float64', 'int32', 'float32', 'int64'][i % 4]
+            kind = 'ties'
+            nd_ = rng.randint(3, 6)
+            distinct = sorted(rng.sample(range(0, 40), nd_))
+            vals = []
+            for d_ in distinct:
+                vals += [float(d_)] * rng.choice([1, 1, 2, 2, 3, 5, 9])
+            vals = vals[:16]
+            rng.shuffle(vals)
+            a = np.array(vals, dtype='float64').reshape(1, -1).astype(dtype)
+            k = rng.randint(2, min(4, len(set(vals))))
         else:
-            rows, cols = rng.randint(1, 6), rng.randint(2, 6)
-        a = rand_raster(rng, dtype, rows, cols, kind)
-        k = rng.randint(2, 9 if fn != 'natural_breaks' else 4)
+            fn = ['quantile', 'equal_interval', 'natural_breaks'][i % 3]
+            dtype = ['float64', 'float32', 'int32', 'float64', 'int64'][(i // 3) % 5]
+            kind = kinds[(i // 15) % len(kinds)] if fn != 'natural_breaks' else ['small', 'wide', 'frac', 'nonf32'][(i // 3) % 4]
+            if fn == 'natural_breaks':
+                rows, cols = rng.randint(1, 3), rng.randint(2, 4)
+            else:
+                rows, cols = rng.randint(1, 6), rng.randint(2, 6)
+            a = rand_raster(rng, dtype, rows, cols, kind)
+            k = rng.randint(2, 9 if fn != 'natural_breaks' else 4)
         finite = a[np.isfinite(a)] if a.dtype.kind == 'f' else a.ravel()
         if finite.size == 0:
             continue
